@@ -121,6 +121,8 @@ def w_transitions(idx):
                     x.nsmap = {None: "urn:default", "x": "urn:x"}
                 elif j % 3 == 0:
                     x.nsmap = {"y": "urn:y"}
+                if i % 2 == 0:
+                    x.prefix = "x"          # qualified elements (same prefix everywhere): "same-named siblings" go by element NAME
             for clause, detail, exc in check_step(w, t["op"], t["to"]):
                 out.append((opkey(t["op"], clause + ":nodes-carry-namespace-maps", exc), detail,
                             {"kind": "transition", "from": t["from"], "op": t["op"], "expected_to": t["to"], "variant": "namespace maps incl. a default namespace"}))
